@@ -93,11 +93,18 @@ def table_roundtrip(nrows: int, n0: int, n1: int, n2: int, ncols: int, c0: int, 
     """
     pre: 0 <= nrows <= 3 and 0 <= n0 <= 6 and 0 <= n1 <= 6 and 0 <= n2 <= 6 and 1 <= ncols <= 2
     pre: 0 <= c0 <= 15 and c1 in (1, 6, 11) and c2 in (0, 13)
+    pre: (nrows >= 1 or n0 == 0) and (nrows >= 2 or n1 == 0) and (nrows >= 3 or n2 == 0) and (nrows >= 1 or (c0 == 0 and c1 == 1 and c2 == 0))
+    pre: nrows <= 2 or (c1 == 6 and c2 == 13)
     pre: PART < 0 or nrows * 4 + (2 if u else 0) + (1 if split else 0) == PART
     post: _
     """
-    nrows, n0, n1, n2, ncols = mark.pick(nrows, 0, 3), mark.pick(n0, 0, 6), mark.pick(n1, 0, 6), mark.pick(n2, 0, 6), mark.pick(ncols, 1, 2)
-    c0, c1, c2 = mark.pick(c0, 0, 15), mark.pick_from(c1, (1, 6, 11)), mark.pick_from(c2, (0, 13))
+    nrows, ncols = mark.pick(nrows, 0, 3), mark.pick(ncols, 1, 2)
+    n0 = mark.pick(n0, 0, 6) if nrows >= 1 else 0
+    n1 = mark.pick(n1, 0, 6) if nrows >= 2 else 0
+    n2 = mark.pick(n2, 0, 6) if nrows >= 3 else 0
+    c0 = mark.pick(c0, 0, 15) if nrows >= 1 else 0
+    c1 = (mark.pick_from(c1, (1, 6, 11)) if nrows <= 2 else 6) if nrows >= 1 else 1
+    c2 = (mark.pick_from(c2, (0, 13)) if nrows <= 2 else 13) if nrows >= 1 else 0
     u, split = mark.pickb(u), mark.pickb(split)
     with mark.untraced():
         return _table(nrows, n0, n1, n2, ncols, c0, c1, c2, u, split)
@@ -157,7 +164,7 @@ def _dfsr(mask, vsel, nch, c0, split):
 
 def dfsr_roundtrip(mask: int, vsel: int, nch: int, c0: int, split: bool) -> bool:
     """
-    pre: 0 <= mask < 8192 and 0 <= vsel <= 2 and 1 <= nch <= 3 and 0 <= c0 <= 5
+    pre: 0 <= mask < 8192 and 0 <= vsel <= 2 and 1 <= nch <= 3 and c0 in (0, 3, 5)
     pre: PART < 0 or (mask // 512) == PART
     post: _
     """
@@ -167,7 +174,7 @@ def dfsr_roundtrip(mask: int, vsel: int, nch: int, c0: int, split: bool) -> bool
     for k, b in enumerate(bits):
         if b:
             m += 1 << k
-    vsel, nch, c0, split = mark.pick(vsel, 0, 2), mark.pick(nch, 1, 3), mark.pick(c0, 0, 5), mark.pickb(split)
+    vsel, nch, c0, split = mark.pick(vsel, 0, 2), mark.pick(nch, 1, 3), mark.pick_from(c0, (0, 3, 5)), mark.pickb(split)
     with mark.untraced():
         return _dfsr(m, vsel, nch, c0, split)
 
